@@ -313,9 +313,13 @@ CLAIMS = {
              "class's representation invariant - loop invariant taken from the source comment, termination, field-exact postcondition "
              "(map unchanged, or [code, COPY of the left set] inserted at the returned even index strictly between its neighbours), "
              "invariant re-established, no other set object changed; and Regexps.Seq.__init__: the nullable / match_nl flags equal "
-             "their definition over the items (they decide where begin-of-line transitions are generated). Kernel only.",
+             "their definition over the items (they decide where begin-of-line transitions are generated); and the epsilon closure of "
+             "the subset construction (DFA.add_to_epsilon_closure, recursive, by its own contract with a loop invariant over an arbitrary "
+             "iteration order of a set; DFA.epsilon_closure with the data-structure invariant 'every memoised closure is complete'): the "
+             "result contains the state, is closed under epsilon moves and holds only reachable states. Kernel only.",
         note="Trusted: dv Python front end (heap as address-indexed arrays; list cells typed by position through the invariant), z3. "
-             "Unverified: TransitionMap.add/add_set/items, NFA construction (build_machine), nfa_to_dfa, the scanner loop - the global "
+             "Assumed: only the closure rules of the ghost reachability relation (used positively). Termination of the recursion is not proved. "
+             "Unverified: TransitionMap.add/add_set/items, NFA construction (build_machine), the rest of nfa_to_dfa, the scanner loop - the global "
              "longest-match/earliest-rule theorem is not proved.",
         ref="4 C50"),
     "C38": dict(
